@@ -35,7 +35,7 @@ var (
 )
 
 func TestMain(m *testing.M) {
-	rec.Rule("cases = (a) every transform kind (plain file, ZIP-in-tar, MSI-in-tar, Mach-O/DMG tar, PGP) read twice and compared byte for byte; (b) a signer fed its upload stream under a drawn read-size schedule (1 byte, primes, sizes straddling 4 KiB / 64 KiB / 1 MiB, short reads, data returned together with EOF) vs one whole read: the embedded content digest (extracted without relic) must be identical and the patched file must verify; (c) the same input signed standalone and through the real daemon behind scripted front servers (503 before / after reading k bytes, connection reset, 406 forcing the uncompressed retry, pass) with the directory advertising identity / gzip / snappy: a produced signature embeds the same content digest as standalone signing and verifies; scripts whose failures are all transient HTTP statuses and that contain a passing server must succeed; non-trivial = schedule splitting a chunk boundary, or a script with >= 1 failed attempt or a non-identity encoding; distinct = (format, input sha256, schedule | script+encoding)")
+	rec.Rule("cases = (a) every transform kind (plain file, ZIP-in-tar, MSI-in-tar, Mach-O/DMG tar, PGP) read twice and compared byte for byte; (b) a signer fed its upload stream under a drawn read-size schedule (1 byte, primes, sizes straddling 4 KiB / 64 KiB / 1 MiB, short reads, data returned together with EOF) vs one whole read: the embedded content digest (extracted without relic) must be identical and the patched file must verify; (c) the same input signed standalone and through the real daemon behind scripted front servers (503 before / after reading k bytes, connection reset, 406 forcing the uncompressed retry, pass) with the directory advertising identity / gzip / snappy: a produced signature embeds the same content digest as standalone signing and verifies; scripts whose failures are all transient HTTP statuses and that contain a passing server must succeed; boolean signer options in both explicit states; Mach-O code directory hash as embedded digest; non-trivial = schedule splitting a chunk boundary, or a script with >= 1 failed attempt or a non-identity encoding; distinct = (format, input sha256, schedule | script+encoding)")
 	var err error
 	workDir, err = os.MkdirTemp("", "c09-")
 	if err != nil {
